@@ -176,6 +176,12 @@ func compatGenome(id int, list []innovMut, alt ...int) *genetics.Genome {
 	for i, x := range list {
 		s.Nodes = append(s.Nodes, NodeSpec{Id: 100 + int(x.Innov), Role: roleHidden, Act: 4, Trait: 1})
 		g := GeneSpec{In: 1, Out: 100 + int(x.Innov), W: x.Mut, Innov: x.Innov, Mut: x.Mut, En: true, Trait: 1}
+		if i%3 == 1 { // a gene without a trait whose weight differs from its mutation number
+			g.Trait, g.W = 0, 0.5*x.Mut+1
+			if math.IsInf(g.W, 0) {
+				g.W = 1
+			}
+		}
 		if other[i] { // the same innovation number on another link: from the hidden node to the output, flagged recurrent
 			g.In, g.Out, g.Rec = 100+int(x.Innov), 2, true
 		}
